@@ -152,6 +152,11 @@ pub open spec fn requirements_met(signed: Seq<Seq<u8>>, h: QMap, always: Seq<Seq
     &&& forall|i: int| 0 <= i < ifreq.len() ==> (h.contains_key(lower(#[trigger] ifreq[i])) ==> signed.contains(lower(ifreq[i])))
     &&& forall|i: int, k: Seq<u8>| 0 <= i < prefixes.len() && #[trigger] h.contains_key(k) && lower(#[trigger] prefixes[i]).is_prefix_of(k) ==> signed.contains(k)
 }
+/// requirements_met looks at the signed list only through membership
+pub proof fn lemma_requirements_same_names(s1: Seq<Seq<u8>>, s2: Seq<Seq<u8>>, h: QMap, always: Seq<Seq<u8>>, ifreq: Seq<Seq<u8>>, prefixes: Seq<Seq<u8>>)
+    requires forall|x: Seq<u8>| s1.contains(x) <==> s2.contains(x)
+    ensures requirements_met(s1, h, always, ifreq, prefixes) == requirements_met(s2, h, always, ifreq, prefixes)
+{}
 
 
 impl AuthParams {
@@ -406,6 +411,39 @@ impl CanonicalRequest {
         ||| (!ha && qa && self.first_query_alg() == ALGO() && !self.query_carrier_missing() && self.query_carrier_ok(p))
     }
 
+    /// C02 / C05 (completeness of rules 5-8): some extraction by the selected carrier meets every signed-header requirement
+    pub open spec fn acceptable_params(&self, always: Seq<Seq<u8>>, ifreq: Seq<Seq<u8>>, prefixes: Seq<Seq<u8>>) -> bool {
+        exists|p: AuthParams| #[trigger] self.carrier_selected(p) && requirements_met(p.signed(), self.hview(), always, ifreq, prefixes)
+    }
+    /// whatever the selected carrier yields, it yields the same set of signed names
+    pub proof fn lemma_selected_same_names(&self, p: AuthParams, q: AuthParams)
+        requires self.carrier_selected(p), self.carrier_selected(q)
+        ensures forall|x: Seq<u8>| p.signed().contains(x) <==> q.signed().contains(x)
+    {
+        broadcast use vstd::seq_lib::group_to_multiset_ensures;
+        assert(p.signed().to_multiset() == q.signed().to_multiset());
+        assert forall|x: Seq<u8>| p.signed().contains(x) <==> q.signed().contains(x) by {
+            assert(p.signed().contains(x) <==> p.signed().to_multiset().count(x) > 0);
+            assert(q.signed().contains(x) <==> q.signed().to_multiset().count(x) > 0);
+        }
+    }
+    /// hence a refusal established for the extraction at hand holds for every extraction
+    pub proof fn lemma_not_acceptable(&self, params: AuthParams, always: Seq<Seq<u8>>, ifreq: Seq<Seq<u8>>, prefixes: Seq<Seq<u8>>)
+        requires self.carrier_selected(params), !requirements_met(params.signed(), self.hview(), always, ifreq, prefixes)
+        ensures !self.acceptable_params(always, ifreq, prefixes)
+    {
+        assert forall|p: AuthParams| #[trigger] self.carrier_selected(p) implies !requirements_met(p.signed(), self.hview(), always, ifreq, prefixes) by {
+            self.lemma_selected_same_names(p, params);
+            lemma_requirements_same_names(p.signed(), params.signed(), self.hview(), always, ifreq, prefixes);
+        }
+    }
+
+}
+// (own module: Verus builds one solver context per module; this function's five loop queries stay small and stable when the rest of the unit's
+//  definitions are not in scope)
+pub mod gap_m {
+use super::*;
+impl CanonicalRequest {
 //@ fn canonical.rs impl CanonicalRequest :: get_auth_parameters
 //@ hideutf8
 //@ attr #[verifier::rlimit(40)] // five loop queries in a large context: slack so that an unrelated edit elsewhere in the unit cannot tip it over the default limit
@@ -444,6 +482,8 @@ impl CanonicalRequest {
         r is Ok ==> requirements_met(r->Ok_0.signed(), self.hview(), signed_header_requirements.always_spec(),
             signed_header_requirements.if_in_request_spec(), signed_header_requirements.prefixes_spec()), //# C05 name=accepted_only_if_every_required_header_is_signed
         r is Ok ==> self.carrier_selected(r->Ok_0), //# C19 name=exactly_one_carrier_selected
+        self.acceptable_params(signed_header_requirements.always_spec(), signed_header_requirements.if_in_request_spec(),
+            signed_header_requirements.prefixes_spec()) ==> r is Ok, //# C02 C05 name=request_meeting_every_requirement_passes_rules_5_to_8
         r is Err ==> (r->Err_0 is SignatureDoesNotMatch || r->Err_0 is MissingAuthenticationToken || r->Err_0 is IncompleteSignature), //# C13 name=rules_5_to_8_error_kinds
 //@ bodystart
     hide(CanonicalRequest::header_carrier_ok);
@@ -462,13 +502,42 @@ impl CanonicalRequest {
     let ghost hv = self.hview();
     proof { assert(self.carrier_selected(params)); }
 //@ loop 1 iter it1
+        invariant_except_break
+            !found_host,
         invariant
             signed == vals_bytes(params.signed_headers@),
             it1.seq().len() == params.signed_headers@.len(),
             forall|i: int| 0 <= i < params.signed_headers@.len() ==> *(#[trigger] it1.seq()[i]) == params.signed_headers@[i],
             found_host ==> signed.contains(HOST()) || signed.contains(AUTHORITY()),
+            !found_host ==> forall|j: int| 0 <= j < it1.index@ ==> signed[j] != HOST() && signed[j] != AUTHORITY(),
+        ensures
+            !found_host ==> !(signed.contains(HOST()) || signed.contains(AUTHORITY())), //# C02 C05 name=host_refusal_only_when_neither_is_signed
 //@ before 1 `if header == "host" || header == ":authority" {`
             proof { lemma_lit_host(); lemma_lit_authority(); assert(str_bytes(header@) == signed[it1.index@]); }
+//@ before 1 `return Err(SignatureError::SignatureDoesNotMatch(Some(MSG_HOST_AUTHORITY_MUST_BE_SIGNED.to_string())));`
+            proof {
+                self.lemma_not_acceptable(params, signed_header_requirements.always_spec(), signed_header_requirements.if_in_request_spec(), signed_header_requirements.prefixes_spec());
+            }
+//@ before 1 `return Err(SignatureError::SignatureDoesNotMatch(Some(format!(`
+                proof {
+                    assert(!signed.contains(lower(signed_header_requirements.always_spec()[it2.index@])));
+                    self.lemma_not_acceptable(params, signed_header_requirements.always_spec(), signed_header_requirements.if_in_request_spec(), signed_header_requirements.prefixes_spec());
+                }
+//@ before 2 `return Err(SignatureError::SignatureDoesNotMatch(Some(format!(`
+                proof {
+                    assert(hv.contains_key(lower(signed_header_requirements.if_in_request_spec()[it3.index@])) && !signed.contains(lower(signed_header_requirements.if_in_request_spec()[it3.index@])));
+                    self.lemma_not_acceptable(params, signed_header_requirements.always_spec(), signed_header_requirements.if_in_request_spec(), signed_header_requirements.prefixes_spec());
+                }
+//@ before 3 `return Err(SignatureError::SignatureDoesNotMatch(Some(format!(`
+                    proof {
+                        let k = str_bytes(http_header@);
+                        lemma_hmap_contains(self.headers@, *http_header);
+                        lemma_keys_exact(it5.seq(), self.headers@.dom());
+                        assert(self.headers@.contains_key(*it5.seq()[it5.index@]));
+                        assert(hv.contains_key(k) && pfx.is_prefix_of(k) && !signed.contains(k));
+                        assert(hv.contains_key(k) && lower(signed_header_requirements.prefixes_spec()[it4.index@]).is_prefix_of(k));
+                        self.lemma_not_acceptable(params, signed_header_requirements.always_spec(), signed_header_requirements.if_in_request_spec(), signed_header_requirements.prefixes_spec());
+                    }
 //@ loop 2 iter it2
         invariant
             self.carrier_selected(params),
@@ -504,6 +573,8 @@ impl CanonicalRequest {
                     signed == vals_bytes(params.signed_headers@), hv == self.hview(),
                     pfx == str_bytes(header_lower@),
                     forall|k: String| self.headers@.contains_key(k) ==> exists|j: int| 0 <= j < it5.seq().len() && *(#[trigger] it5.seq()[j]) == k,
+                    it5.seq().no_duplicates(), it5.seq().len() == self.headers@.len(),
+                    0 <= it4.index@ < signed_header_requirements.prefixes_spec().len(), pfx == lower(signed_header_requirements.prefixes_spec()[it4.index@]),
                     forall|j: int| 0 <= j < it5.index@ ==> (pfx.is_prefix_of(str_bytes((#[trigger] it5.seq()[j])@)) ==> signed.contains(str_bytes(it5.seq()[j]@))),
 //@ after 1 `http_header<NL>                    ))));<NL>                }<NL>            }`
             proof {
@@ -514,6 +585,9 @@ impl CanonicalRequest {
                 }
             }
 //@ end
+}
+} // mod gap_m
+impl CanonicalRequest {
 
 //@ fn canonical.rs impl CanonicalRequest :: get_authenticator_from_auth_parameters
 //@ hideutf8
@@ -555,6 +629,19 @@ impl CanonicalRequest {
         }
     }
 
+    /// the timestamp text the selected carrier supplies (header carrier: first X-Amz-Date, else first Date; query carrier: decoded X-Amz-Date)
+    pub open spec fn carrier_timestamp(&self) -> Seq<char> {
+        if self.hview().contains_key(H_AUTHORIZATION()) { latin1(self.header_date()->Some_0) } else { latin1(self.first_query_decoded(Q_DATE())) }
+    }
+    pub proof fn lemma_selected_timestamp(&self, p: AuthParams)
+        requires self.carrier_selected(p)
+        ensures p.timestamp_str@ == self.carrier_timestamp()
+    {}
+    /// C02 (completeness of rules 5-9): the selected carrier's extraction meets every requirement and its timestamp is ISO-8601
+    pub open spec fn acceptable_authenticator(&self, always: Seq<Seq<u8>>, ifreq: Seq<Seq<u8>>, prefixes: Seq<Seq<u8>>) -> bool {
+        self.acceptable_params(always, ifreq, prefixes) && iso_instant(str_bytes(self.carrier_timestamp())) is Some
+    }
+
 //@ fn canonical.rs impl CanonicalRequest :: get_authenticator
 //@ hideutf8
 //@ props C08 C01 C05 C13 C16 C19 C17
@@ -569,12 +656,14 @@ impl CanonicalRequest {
         r is Ok ==> self.authenticator_ok(signed_header_requirements.always_spec(), signed_header_requirements.if_in_request_spec(),
             signed_header_requirements.prefixes_spec(), r->Ok_0), //# C01 C05 C16 C19 name=authenticator_built_from_the_selected_carrier
         r is Err ==> (r->Err_0 is SignatureDoesNotMatch || r->Err_0 is MissingAuthenticationToken || r->Err_0 is IncompleteSignature), //# C13 name=rules_5_to_9_error_kinds
+        self.acceptable_authenticator(signed_header_requirements.always_spec(), signed_header_requirements.if_in_request_spec(),
+            signed_header_requirements.prefixes_spec()) ==> r is Ok, //# C02 name=request_passing_rules_5_to_9_gets_an_authenticator
 //@ bodystart
     hide(CanonicalRequest::carrier_selected);
     hide(requirements_met);
     hide(CanonicalRequest::is_creq);
 //@ before 1 `self.get_authenticator_from_auth_parameters(auth_params)`
     let ghost p0 = auth_params;
-    proof { self.lemma_carrier_selected_builder(auth_params); }
+    proof { self.lemma_carrier_selected_builder(auth_params); self.lemma_selected_timestamp(auth_params); }
 //@ end
 }
